@@ -25,7 +25,7 @@ ASSUMPTIONS = ["equalities between two runs of the same arithmetic in a differen
                "the birth-death / birth-persistence relation at 1e-9*W because (b+p)-b re-rounds the persistence",
                "sign / total clauses at 1e-9*W; weights judged non-negative from the oracle-side weight function",
                "schedules: only those joblib produces on this machine (loky processes, threads), perturbed by injected sleeps"]
-REQUIRED_NOTES = ["large-cases"]
+REQUIRED_NOTES = ["large-cases", "reconfigure-cases"]
 TECHNIQUE = "runtime monitoring: metamorphic-relation monitor on PersistenceImager.transform across call styles and joblib schedules, with a worker event log"
 
 
@@ -76,9 +76,62 @@ def large_case(ctx, k, rng):
         ctx.exception("transform returns", e, scenario="large")
 
 
+def reconfigure_case(ctx, k, rng):
+    """a parameter sweep on ONE imager (`for s in sigmas: imgr.kernel_params = {...}; imgr.transform(dgms)`): after every
+    reassignment the images must be those of a brand-new imager with that configuration - alone, in a collection, serial or parallel"""
+    geom = imgcfg.gen_geometry(rng)
+    ctx.begin(k, "reconfigure", None)
+    ctx.note("reconfigure-cases")
+    try:
+        ctx.ran()
+        P = Imager(**geom)
+        pub = {"birth_range": tuple(P.birth_range), "pers_range": tuple(P.pers_range), "pixel_size": P.pixel_size}
+        # diagrams that share birth / persistence values (integer grids, all births 0)
+        coll = []
+        for _ in range(int(rng.integers(1, 4))):
+            A = bd(imgcfg.gen_points(rng, int(rng.integers(1, 8)), pub, integer=bool(rng.random() < 0.5)))
+            if rng.random() < 0.3:
+                A[:, 1] -= A[:, 0]; A[:, 0] = 0.0
+                A[:, 1] = np.maximum(A[:, 1], 0.0)
+            coll.append(A)
+        steps = []
+        ctx.set_payload({"ctor": geom, "collection": coll, "steps": steps})
+        worst = 0.0
+        for t in range(int(rng.integers(2, 5))):
+            kkw, kdesc = imgcfg.gen_kernel(rng, geom["pixel_size"], high_corr=False)
+            wkw, wfun, _ = imgcfg.gen_weight(rng, nonneg_only=True)
+            what = str(rng.choice(["kernel_params", "kernel_params", "weight_params", "both"]))
+            cfg = {}
+            if what in ("kernel_params", "both") and "kernel_params" in kkw and kkw.get("kernel") == "gaussian":
+                P.kernel_params = kkw["kernel_params"]
+                cfg["kernel_params"] = kkw["kernel_params"]
+            if what in ("weight_params", "both") and wkw.get("weight") == "persistence":
+                P.weight_params = wkw["weight_params"]
+                cfg["weight_params"] = wkw["weight_params"]
+            steps.append({a: (np.asarray(b["sigma"]).tolist() if "sigma" in b else b) for a, b in cfg.items()})
+            ctx.ran(3)
+            live = P.transform(coll, skew=True)
+            fresh = Imager(**geom, kernel_params=P.kernel_params, weight_params=P.weight_params).transform(coll, skew=True)
+            one = P.transform(coll[0], skew=True)
+            W = max(float(np.sum(np.abs(np.asarray(f)))) for f in fresh) + 1e-300
+            worst = max([float(np.max(np.abs(np.asarray(a) - np.asarray(b)))) / W for a, b in zip(live, fresh)] +
+                        [float(np.max(np.abs(np.asarray(one) - np.asarray(fresh[0])))) / W, worst])
+            if rng.random() < 0.3:
+                with joblib.parallel_backend("threading"):
+                    par = P.transform(coll, skew=True, n_jobs=2)
+                ctx.ran()
+                worst = max([float(np.max(np.abs(np.asarray(a) - np.asarray(b)))) / W for a, b in zip(par, fresh)] + [worst])
+        ctx.check("after reassigning kernel / weight parameters the images are those of a fresh imager", worst <= 1e-12, worst_relative=worst, steps=len(steps))
+        ctx.mark_nontrivial(geom, [c.tolist() for c in coll], steps)
+    except Exception as e:
+        ctx.exception("transform returns", e, scenario="reconfigure")
+
+
 def run_case(ctx, k, rng):
     if k % 131 == 17:
         return large_case(ctx, k, rng)
+    if k % 11 == 5:
+        return reconfigure_case(ctx, k, rng)
     geom = imgcfg.gen_geometry(rng)
     kkw, kdesc = imgcfg.gen_kernel(rng, geom["pixel_size"])
     wkw, wfun, nonneg = imgcfg.gen_weight(rng)
